@@ -383,7 +383,7 @@ def c10_facts(F: Facts):
             aw = [(b, e, t) for b, e, t in F.awaits.get(me, []) if b < d['exit'] and (e is None or e >= d['exit'])]
             if aw:
                 t = aw[0][2]
-                gk = [x for x in F.descendants(t) if any(k[1] == x and v['enter'] < d['exit'] and (v['exit'] is None or v['exit'] >= d['exit'] - 0) and v['how'] == 'cancelled' and abs((v['tx'] or -1) - tx) <= EPS for k, v in inv.items())]
+                gk = [x for x in F.descendants(t) if any(k[1] == x and v['enter'] < d['exit'] and v['how'] == 'cancelled' and abs((v['tx'] or -1) - tx) <= EPS for k, v in inv.items())]
                 where.add('while-grandchild-runs' if gk else 'while-awaiting-child')
                 for x in [t] + F.descendants(t):
                     touched.add(x)
